@@ -109,9 +109,11 @@ def step (_ : Unit) (op impl : String) : Unit × Verdict :=
       match parseID ids with
       | none => .bad
       | some f =>
-        let s := jsonString f
+        -- what the JSON document carries: invalid UTF-8 becomes U+FFFD (no error); the round trip is claimed for
+        -- namespaces that are valid UTF-8
+        let s := jsonCarry (jsonString f)
         let m := s!"{renderBytes s} {renderID (fromJSONString s)}"
-        judge impl m (f.type == .invalid || lastID impl == some f) "json-roundtrip"
+        judge impl m (f.type == .invalid || !validUTF8 f.ns || lastID impl == some f) "json-roundtrip"
     | ["yaml", ids] =>
       match parseID ids with
       | none => .bad
@@ -131,8 +133,9 @@ def step (_ : Unit) (op impl : String) : Unit × Verdict :=
         let back := match fromProto (e, ns, v) with
           | some g => renderID g
           | none => "panic"
-        let m := s!"{e} {renderBytes ns} {v} {back}"
-        judge impl m (lastID impl == some f) "proto-roundtrip"
+        -- `proto.Marshal` refuses a `string` field that is not valid UTF-8
+        let m := if validUTF8 f.ns then s!"{e} {renderBytes ns} {v} {back}" else "err"
+        judge impl m (!validUTF8 f.ns || lastID impl == some f) "proto-roundtrip"
     | ["unparse", a, ids] =>
       match parseID ids with
       | none => .bad
